@@ -126,6 +126,16 @@ PROPS["C01"] = {
     "design_ref": "DESIGN.md section 5 C01",
 }
 
+PROPS["C14"] = {
+    "world": "ring", "level": "exploration", "quick_s": 20, "thorough_s": 480,
+    "rule": "one evaluation = one lifecycler-driven ring history over a tiny token alphabet (0, 1, 2, 3, 7, 2^31, 2^31+-1, 2^32-4..2^32-1) in 1..4 zones; on every ring version a fresh zone-aware client with RF = number of zones reports GetTokenRangesForInstance for every instance: membership of every boundary key is compared with the owner of that key in the instance's zone (first token strictly after the key), the ranges of a zone must tile [0, 2^32-1] exactly, and on all-ACTIVE healthy rings the real lookup is cross-checked; (scenario 'partition-ranges' in the PART world covers partitions); non-trivial = a state in which some instance owns token 0, 1 or 2^32-1; distinct = distinct released-task/action sequence hash among non-trivial runs",
+    "real": _RING_CLIENT_REAL, "stub": _RING_STUB + ["fresh ring clients read the observed descriptor from a static kv.Client"],
+    "assumptions": _ASSUME_COMMON + ["input-shaped property: no schedule dimension of its own; it is evaluated as a cross-invariant on the ring states the simulated lifecyclers and operator reach (DESIGN.md section 6)"],
+    "level_text": "seeded exploration of reachable ring states over a boundary-biased token alphabet; ranges vs. ownership and exact tiling checked per state; sampling, not proof",
+    "level_note": "trusted: simulator engine, the 15-line zone-owner function written from the statement",
+    "design_ref": "DESIGN.md section 5 C14",
+}
+
 HOOK_COMMITS = []
 
 _PENDING = "claimed in DESIGN.md; check not yet registered (implementation in progress)"
